@@ -90,6 +90,7 @@ def ExitReason (c : Cfg) (st : StB) (e : EvB) (s : Nat) : Exit → Prop
        (e = .react s ∧ ∃ D, st.a.rx s = some D ∧ critIn c st.a D = false ∧
           st.nbDone s + (D.filter fun d => !c.forever d).length ≠ nbFinite c s))
   | .cancelled => e = .cancelArrive s
+  | .crashed => e = .orchFail s ∧ ∃ D, st.a.rx s = some D
 
 theorem expired_some {dl : Option Nat} {now : Nat} (h : expired dl now = true) : ∃ d, dl = some d ∧ d ≤ now := by
   unfold expired at h
@@ -237,6 +238,23 @@ theorem loop_exit (c : Cfg) (st st' : StB) (e : EvB) (s : Nat)
               · cases h
                 exact absurd hloop hleft
     · cases h
+  | orchFail s' =>
+    simp only [stepB] at h
+    split at h
+    · rename_i D hl hD
+      split at h
+      · cases h
+      · split at h
+        · cases h
+        · rename_i a' ha
+          cases h
+          obtain ⟨_, _, hph, hcreq, hdeliv, hpc, hrx, hnow⟩ := stepA_react_leave ha
+          by_cases he : s = s'
+          · subst he
+            exact ⟨.crashed, by simp [exitLoop, setAt], hph, hcreq, hdeliv, hnow, rfl, hfT' _, hfC' _, rfl, D, hD⟩
+          · simp only [exitLoop, setAt, if_neg he] at hleft
+            exact absurd hloop hleft
+    · cases h
   | timeoutFire s' =>
     simp only [stepB] at h
     split at h
@@ -314,7 +332,8 @@ theorem exit_cancels_all (c : Cfg) (st st' : StB) (e : EvB) (s : Nat)
 /-- … and the reason recorded is the one that occurred: a critical job of the reacted `done` set raised; or none
     did and the count of reported non-forever jobs reached their number; or the deadline was reached — with nothing
     to report (`timeoutFire`), or noticed in a reaction to completions that neither failed critically nor
-    completed the regular jobs; or the enclosing scheduler cancelled the run -/
+    completed the regular jobs; or the enclosing scheduler cancelled the run; or the orchestration itself failed
+    where a reaction was due -/
 theorem exit_reason (c : Cfg) (st st' : StB) (e : EvB) (s : Nat) (x : Exit)
     (hB : InvB c st) (h : stepB c st e = some st') (hloop : st.pcB s = .loop) (hx : st'.pcB s = .tidy x) :
     match x with
@@ -325,7 +344,8 @@ theorem exit_reason (c : Cfg) (st st' : StB) (e : EvB) (s : Nat) (x : Exit)
         ((e = .timeoutFire s ∧ doneSet c st.a s = []) ∨
          (e = .react s ∧ ∃ D, st.a.rx s = some D ∧ critIn c st.a D = false ∧
             st.nbDone s + (D.filter fun d => !c.forever d).length ≠ nbFinite c s))
-    | .cancelled => e = .cancelArrive s := by
+    | .cancelled => e = .cancelArrive s
+    | .crashed => e = .orchFail s ∧ ∃ D, st.a.rx s = some D := by
   obtain ⟨x', hx', _, _, _, _, _, _, _, hr⟩ := loop_exit c st st' e s hB h hloop (by simp [hx])
   rw [hx] at hx'
   cases hx'
@@ -533,6 +553,22 @@ theorem pcB_step (c : Cfg) (st st' : StB) (e : EvB) (s : Nat) (hB : InvB c st) (
                   by simp [exitLoop, setAt], by simp [exitLoop, setAt, hfC hl], rfl⟩))
               · split at h <;> cases h
                 exact Or.inl ⟨rfl, rfl, rfl, rfl⟩
+      · cases h
+    · (repeat' split at h)
+      all_goals first
+        | (cases h; done)
+        | (cases h; exact Or.inl (by simp [exitLoop, setAt, he]))
+  | orchFail s' =>
+    simp only [stepB] at h
+    by_cases he : s = s'
+    · subst he
+      split at h
+      · rename_i D hl hD
+        split at h
+        · cases h
+        · split at h <;> cases h
+          exact Or.inr (Or.inr (Or.inl ⟨hl, ⟨.crashed, by simp [exitLoop, setAt]⟩,
+            by simp [exitLoop, setAt, hfT hl], by simp [exitLoop, setAt, hfC hl], rfl⟩))
       · cases h
     · (repeat' split at h)
       all_goals first
@@ -748,7 +784,8 @@ theorem diag_stable (c : Cfg) (st st' : StB) (e : EvB) (s : Nat) (hA : InvA c st
   · simp [hover, PcB.exitOf] at h1
 
 /-- C04: the step in which a run with jobs ends reports exactly the reason for which it left its loop:
-    value / exception (the very exception object of one of its critical jobs, or its own `TimeoutError`);
+    value / exception (the very exception object of one of its critical jobs, its own `TimeoutError`, or — whatever
+    `critical` says, also for a `PureScheduler` at the top — the exception of its own orchestration when that failed);
     `failed_time_out()` and `failed_critical()` were recorded when the loop was left and are not touched here:
     `failed_time_out()` holds after exit `timeout`, does not after `success` / `critical`, and after `cancelled` it
     tells whether the run had timed out before the cancellation reached its clean-up; likewise `failed_critical()`
@@ -765,6 +802,7 @@ theorem verdict_of_exit (c : Cfg) (st st' : StB) (e : EvB) (s : Nat)
       (match x with
        | .success => st'.a.ph s = .done (.retBool true)
        | .cancelled => st'.a.ph s = .cancelled
+       | .crashed => st'.a.ph s = .done (.exc (.orch s))
        | .timeout => st'.a.ph s =
            if nestable c s && c.critical s then .done (.exc (.tmo s)) else .done (.retBool false)
        | .critical =>
@@ -813,6 +851,7 @@ theorem verdict_of_exit (c : Cfg) (st st' : StB) (e : EvB) (s : Nat)
         rw [if_neg hc]
         cases hv; rfl
     · split at hv <;> cases hv <;> simp_all [finPh]
+    · cases hv; rfl
     · cases hv; rfl
 
 
@@ -1021,10 +1060,11 @@ structure ExitInv (c : Cfg) (st : StB) : Prop where
          ∃ k ∈ c.children s, c.critical k = true ∧ ∃ ex, st.a.ph k = .done (.exc ex) ∧ st.a.ph s = .done (.exc ex)
        else st.a.ph s = .done (.retBool false))
   /-- C10: where an exception object comes from: an atomic job raises its own; a scheduler re-raises the object
-      of one of its critical jobs, or its own `TimeoutError` -/
+      of one of its critical jobs, or its own `TimeoutError` (both: only if it is critical itself), or raises the
+      exception of its own orchestration (critical or not) -/
   excOrigin : ∀ j ex, j < c.n → st.a.ph j = .done (.exc ex) →
       if c.isSched j then
-        (ex = .tmo j ∧ c.critical j = true) ∨
+        (ex = .tmo j ∧ c.critical j = true) ∨ ex = .orch j ∨
         (c.critical j = true ∧ ∃ k ∈ c.children j, c.critical k = true ∧ st.a.ph k = .done (.exc ex))
       else ex = .byJob j
 
@@ -1039,11 +1079,13 @@ theorem verdict_true {c : Cfg} {st : StB} {s : Nat} {x : Exit} {pick : Nat}
     · cases h
   · split at h <;> cases h
   · cases h
+  · cases h
 
 theorem verdict_exc {c : Cfg} {st : StB} {s : Nat} {x : Exit} {pick : Nat} {ex : Exc}
     (h : verdict c st s x pick = some (some (.exc ex))) :
-    c.critical s = true ∧ ((x = .timeout ∧ ex = .tmo s) ∨
-      (x = .critical ∧ pick ∈ c.children s ∧ c.critical pick = true ∧ st.a.ph pick = .done (.exc ex))) := by
+    (x = .crashed ∧ ex = .orch s) ∨
+    (c.critical s = true ∧ ((x = .timeout ∧ ex = .tmo s) ∨
+      (x = .critical ∧ pick ∈ c.children s ∧ c.critical pick = true ∧ st.a.ph pick = .done (.exc ex)))) := by
   cases x <;> simp only [verdict] at h
   · cases h
   · split at h
@@ -1053,16 +1095,17 @@ theorem verdict_exc {c : Cfg} {st : StB} {s : Nat} {x : Exit} {pick : Nat} {ex :
         split at h
         · rename_i e he
           cases h
-          exact ⟨by simp at hc; exact hc.2, Or.inr ⟨rfl, hp.1, hp.2, he⟩⟩
+          exact Or.inr ⟨by simp at hc; exact hc.2, Or.inr ⟨rfl, hp.1, hp.2, he⟩⟩
         · cases h
       · cases h
     · cases h
   · split at h
     · rename_i hc
       cases h
-      exact ⟨by simp at hc; exact hc.2, Or.inl ⟨rfl, rfl⟩⟩
+      exact Or.inr ⟨by simp at hc; exact hc.2, Or.inl ⟨rfl, rfl⟩⟩
     · cases h
   · cases h
+  · cases h; exact Or.inl ⟨rfl, rfl⟩
 
 theorem exitInv_init (c : Cfg) : ExitInv c StB.init := by
   constructor <;> intros <;> simp_all [StB.init, StA.init, PcB.exitOf]
@@ -1281,9 +1324,10 @@ theorem exitInv_step (c : Cfg) (hwf : c.wf = true) (st st' : StB) (e : EvB)
           split at this
           · rename_i hs
             rw [if_pos hs]
-            rcases this with h2 | ⟨h2, k, hk, hkc, hke⟩
+            rcases this with h2 | h2 | ⟨h2, k, hk, hkc, hke⟩
             · exact Or.inl h2
-            · exact Or.inr ⟨h2, k, hk, hkc, by rw [f1 k (Or.inl (by simp [hke, Ph.isDone])), hke]⟩
+            · exact Or.inr (Or.inl h2)
+            · exact Or.inr (Or.inr ⟨h2, k, hk, hkc, by rw [f1 k (Or.inl (by simp [hke, Ph.isDone])), hke]⟩)
           · rename_i hs
             rw [if_neg hs]; exact this
         · rw [if_neg (by simp [h1.1])]
@@ -1293,9 +1337,10 @@ theorem exitInv_step (c : Cfg) (hwf : c.wf = true) (st st' : StB) (e : EvB)
         · simp at h1
         · have hs : c.isSched j = true := (hB.pcRange j (by intro hn; rw [hn] at hx; simp [PcB.exitOf] at hx)).2
           rw [if_pos hs]
-          obtain ⟨hc, h2 | ⟨_, hp, hpc, hpe⟩⟩ := verdict_exc hv
+          rcases verdict_exc hv with ⟨_, h2⟩ | ⟨hc, h2 | ⟨_, hp, hpc, hpe⟩⟩
+          · exact Or.inr (Or.inl h2)
           · exact Or.inl ⟨h2.2, hc⟩
-          · exact Or.inr ⟨hc, pick, hp, hpc, by rw [f1 pick (Or.inl (by simp [hpe, Ph.isDone])), hpe]⟩ }
+          · exact Or.inr (Or.inr ⟨hc, pick, hp, hpc, by rw [f1 pick (Or.inl (by simp [hpe, Ph.isDone])), hpe]⟩) }
 
 theorem exitInv_accept (c : Cfg) (hwf : c.wf = true) (evs : List EvB) (st0 st : StB)
     (hA : InvA c st0.a) (hB : InvB c st0) (hE : ExitInv c st0) (h : acceptB c st0 evs = some st) : ExitInv c st := by
@@ -1541,5 +1586,126 @@ theorem timeout_bounds (c : Cfg) (hwf : c.wf = true) (evs : List EvB) (st : StB)
   have hB := invB_reach c hwf evs st h
   have h1 : st.deadline s = some (st.tbegin s + T) := by rw [hB.deadlineEq s hloop, hT]; rfl
   exact ⟨h1, (hB.deadlineGe s _ hloop h1).1⟩
+
+/-! ### non-vacuity: the orchestration itself fails
+
+  Scheduler `1` (quick job `2`, long job `3`) is nested in scheduler `0`, whose job `4` requires `1`; `1` is not
+  critical.  Job `2` ends, the main wait of `1` returns it, and instead of reacting the orchestration of `1` fails
+  (`orchFail 1`): nothing is counted, `cancel()` is called on job `3`, neither `failed_time_out()` nor
+  `failed_critical()` is set; the wrapper `co_run()` waits for job `3` (the clock advances meanwhile: `tidyReturn 1` is
+  not enabled before `cancelAck 3`), shuts `2` and `3` down, and the run of `1` ends raising its own exception object
+  `.orch 1` — although `1` is not critical.  For `0` this is a non-critical job that raised: it goes on and starts `4`,
+  only after `3` was cancelled and acknowledged and both jobs of `1` were shut down. -/
+
+def orchCfg : Cfg :=
+  { n := 5, parent := fun j => if j = 2 ∨ j = 3 then 1 else 0, isSched := fun j => j = 0 ∨ j = 1,
+    req := fun j => if j = 4 then [1] else [],
+    critical := fun _ => false, forever := fun _ => false, window := fun _ => 0,
+    timeout := fun _ => none, sdTimeout := fun _ => none, topPure := true }
+
+def orchEvs : List EvB :=
+  [.runBegin, .grant 1, .grant 2, .grant 3, .tick 1, .bodyEnd 2 true, .waitReturn 1, .orchFail 1, .tick 2, .cancelAck 3,
+   .tidyReturn 1 0, .hEnd 2, .hEnd 3, .sdWaitReturn 1 0, .waitReturn 0, .react 0, .grant 4, .bodyEnd 4 true,
+   .waitReturn 0, .react 0, .tidyReturn 0 0, .hStep 1, .hEnd 4, .sdWaitReturn 0 0]
+
+example : orchCfg.wf = true ∧
+    -- the failure: the run of `1` leaves its loop, job `3` is cancelled, nothing is counted, no diagnosis
+    (acceptB orchCfg StB.init (orchEvs.take 8)).map (fun st => (st.pcB 1, st.a.creq 3, st.a.ph 3, st.nbDone 1)) =
+      some (.tidy .crashed, true, .running, 0) ∧
+    (acceptB orchCfg StB.init (orchEvs.take 8)).map (fun st => (st.failT 1, st.failC 1, st.a.ph 4)) =
+      some (false, false, .idle) ∧
+    -- the clean-up waits for job `3`
+    (acceptB orchCfg StB.init (orchEvs.take 9 ++ [.tidyReturn 1 0])).isNone = true ∧
+    -- then shuts the jobs down
+    (acceptB orchCfg StB.init (orchEvs.take 11)).map (fun st => (st.pcB 1, st.a.ph 3, st.hcalls 2, st.hcalls 3)) =
+      some (.shut .crashed, .cancelled, 1, 1) := by
+  decide
+
+example :
+    -- the run of `1` ends raising the exception of its own orchestration; `4` has not been started yet
+    (acceptB orchCfg StB.init (orchEvs.take 14)).map (fun st => (st.pcB 1, st.a.ph 1, st.failT 1, st.failC 1)) =
+      some (.over, .done (.exc (.orch 1)), false, false) ∧
+    (acceptB orchCfg StB.init (orchEvs.take 14)).map (fun st => (st.a.ph 3, st.hph 2, st.hph 3, st.a.ph 4, st.a.now)) =
+      some (.cancelled, .hdone, .hdone, .idle, 3) ∧
+    -- the enclosing scheduler goes on: `4` is started by its reaction to the end of `1`
+    (acceptB orchCfg StB.init (orchEvs.take 16)).map (fun st => (st.pcB 0, st.a.ph 4)) = some (.loop, .queued) ∧
+    -- … and ends well; every job was shut down exactly once
+    (acceptB orchCfg StB.init orchEvs).map
+      (fun st => (st.pcB 0, st.a.ph 0, st.a.ph 1, (List.range 5).map st.hcalls)) =
+      some (.over, .done (.retBool true), .done (.exc (.orch 1)), [0, 1, 1, 1, 1]) := by
+  decide
+
+/-- the same failure in a critical nested scheduler makes the enclosing (critical) `Scheduler` abort and re-raise that
+    very object; at the top, a `PureScheduler` raises it too -/
+example :
+    (acceptB { orchCfg with critical := fun j => j = 0 ∨ j = 1, topPure := false } StB.init
+      (orchEvs.take 16 ++ [.tidyReturn 0 1, .hStep 1, .hEnd 4, .sdWaitReturn 0 1])).map
+      (fun st => (st.pcB 0, st.failC 0, st.a.ph 0, st.a.ph 4)) =
+      some (.over, true, .done (.exc (.orch 1)), .idle) ∧
+    (acceptB { orchCfg with n := 3, parent := fun _ => 0, isSched := fun j => j = 0 } StB.init
+      [.runBegin, .grant 1, .grant 2, .bodyEnd 1 true, .waitReturn 0, .orchFail 0, .cancelAck 2, .tidyReturn 0 0,
+       .hEnd 1, .hEnd 2, .sdWaitReturn 0 0]).map (fun st => (st.pcB 0, st.a.ph 0, st.a.ph 2)) =
+      some (.over, .done (.exc (.orch 0)), .cancelled) := by
+  decide
+
+/-- a cancellation by the enclosing scheduler delivered while the crashed run is shutting its jobs down: the run ends
+    cancelled (the `CancelledError` replaces the exception the wrapper was about to re-raise) -/
+example :
+    (acceptB { orchCfg with critical := fun j => j = 4, req := fun _ => [] } StB.init
+      [.runBegin, .grant 1, .grant 4, .grant 2, .grant 3, .bodyEnd 2 true, .waitReturn 1, .orchFail 1, .cancelAck 3,
+       .tidyReturn 1 0, .bodyEnd 4 false, .waitReturn 0, .react 0, .cancelArrive 1, .hCancelAck 2, .hCancelAck 3,
+       .sdTidyReturn 1 0]).map (fun st => (st.pcB 1, st.a.ph 1, st.hcalls 2, st.hcalls 3, st.hph 2)) =
+      some (.over, .cancelled, 1, 1, .hcancelled) := by
+  decide
+
+/-! ### why the wrapper needs `try … finally`: a crashed run cancelled while it tidies must still shut its jobs down
+
+  `stepB` lets a cancellation delivered during the `_tidy_tasks` of a crashed run be followed by the shutdown
+  broadcast (`.tidy .crashed` → `.tidy .cancelled`, see CRASHED-TIDY in `Model/Full.lean`): that is the wrapper
+  `co_run()` with `co_shutdown()` in the `finally` of a `try` around `_tidy_tasks`.  With the two `await`s merely in
+  sequence (the wrapper before that repair), `_tidy_tasks` re-raises the `CancelledError` when its wait is over, inside
+  the `except` clause and before `co_shutdown()`, and the run ends cancelled at once.  `stepBAsIs` is `stepB` with
+  exactly that difference (`AsIs`: as the code stood); the history below (observed on that implementation: nested `1`
+  with a quick job `2` and a long job `3` whose cancellation takes time, next to a critical job `4` that raises
+  meanwhile) shows what it costs: when the run of `1` is over its jobs have not been shut down (`InvB.overDid`, hence
+  `ShutB.shutdown_once_at_end` / C13, fail there); they are, later, through the relay of the broadcast of `0`. -/
+
+def stepBAsIs (c : Cfg) (st : StB) : EvB → Option StB
+  | .cancelArrive s =>
+    if st.pcB s = .tidy .crashed then
+      if 0 < s ∧ s < c.n ∧ c.isSched s = true ∧ st.a.ph s = .running ∧ st.a.creq s = true ∧ st.carrived s = false then
+        some { st with carrived := setAt st.carrived s true }
+      else none
+    else stepB c st (.cancelArrive s)
+  | .tidyReturn s pick =>
+    if st.pcB s = .tidy .crashed ∧ st.carrived s = true then
+      if liveChildren c st.a s = [] then finishRun c st s .cancelled pick else none
+    else stepB c st (.tidyReturn s pick)
+  | e => stepB c st e
+
+def acceptBAsIs (c : Cfg) : StB → List EvB → Option StB
+  | st, [] => some st
+  | st, e :: es => match stepBAsIs c st e with
+    | some st' => acceptBAsIs c st' es
+    | none => none
+
+def asIsCfg : Cfg := { orchCfg with critical := fun j => j = 4, req := fun _ => [] }
+
+def asIsEvs : List EvB :=
+  [.runBegin, .grant 1, .grant 4, .grant 2, .grant 3, .bodyEnd 2 true, .waitReturn 1, .orchFail 1,
+   .bodyEnd 4 false, .waitReturn 0, .react 0, .cancelArrive 1, .cancelAck 3, .tidyReturn 1 0]
+
+example : asIsCfg.wf = true ∧
+    -- as the code stood: over, cancelled, and no job of `1` has received `co_shutdown()`
+    (acceptBAsIs asIsCfg StB.init asIsEvs).map (fun st => (st.pcB 1, st.a.ph 1, st.didSd 1, st.hcalls 2, st.hcalls 3)) =
+      some (.over, .cancelled, false, 0, 0) ∧
+    -- the model (the wrapper with `try … finally`): the same history leads into the shutdown broadcast
+    (acceptB asIsCfg StB.init asIsEvs).map (fun st => (st.pcB 1, st.a.ph 1, st.didSd 1, st.hcalls 2, st.hcalls 3)) =
+      some (.shut .cancelled, .running, true, 1, 1) ∧
+    -- as the code stood, the jobs of `1` were shut down by the relay of the enclosing scheduler's broadcast
+    (acceptBAsIs asIsCfg StB.init
+        (asIsEvs ++ [.tidyReturn 0 4, .hStep 1, .hEnd 4, .hEnd 2, .hEnd 3, .sdWaitReturn 1 0, .sdWaitReturn 0 4])).map
+      (fun st => (st.pcB 0, (List.range 5).map st.hcalls)) = some (.over, [0, 1, 1, 1, 1]) := by
+  decide
 
 end AJ.Proofs.ExitB
